@@ -8,6 +8,7 @@ package main
 // with the suffix no-failing-input-found.
 
 import (
+	"sync"
 	"context"
 	"encoding/json"
 	"fmt"
@@ -25,6 +26,9 @@ type replayTemplate struct {
 	Test       string `json:"test"`       // test function name
 	Pkg        string `json:"pkg"`        // "." or "./cmd/desync"
 	Note       string `json:"note"`
+	// FailConfirms: the test is a plain demonstration (no REPLAY-CONFIRMED marker): it passes on code that has
+	// the property and its failure ("--- FAIL: <test>") is the confirmation
+	FailConfirms bool `json:"fail_confirms"`
 	// Schedule: statements inserted into a scratch copy of a source file (overlay, nothing is written
 	// to /repo) after the first line matching a regexp. Only calls of delay helpers defined in the
 	// replay test are inserted: they constrain the goroutine schedule, not the behaviour.
@@ -55,7 +59,23 @@ func tryReplay(eng *Engine, prop string, l *logical, seed int) (bool, map[string
 		if err != nil || !re.MatchString(l.Name) {
 			continue
 		}
-		ok, out := runReplay(eng.repoDir, filepath.Join(verif, "replay", t.File), t.Test, t.Pkg, seed, t.Schedule)
+		key := t.File + "#" + t.Test
+		replayMu.Lock()
+		c, cached := replayCache[key]
+		replayMu.Unlock()
+		var ok bool
+		var out string
+		if cached {
+			ok, out = c.ok, c.out
+		} else {
+			ok, out = runReplay(eng.repoDir, filepath.Join(verif, "replay", t.File), t.Test, t.Pkg, seed, t.Schedule)
+			if !ok && t.FailConfirms && strings.Contains(out, "--- FAIL: "+t.Test) {
+				ok = true
+			}
+			replayMu.Lock()
+			replayCache[key] = replayOutcome{ok, out}
+			replayMu.Unlock()
+		}
 		outcome := "REPLAY-NOT-REPRODUCED"
 		if ok {
 			outcome = "REPLAY-CONFIRMED"
@@ -118,3 +138,13 @@ func runReplay(repo, src, test, pkg string, seed int, sched []schedulePoint) (bo
 	}
 	return strings.Contains(s, "REPLAY-CONFIRMED"), s
 }
+
+type replayOutcome struct {
+	ok  bool
+	out string
+}
+
+var (
+	replayMu    sync.Mutex
+	replayCache = map[string]replayOutcome{}
+)
